@@ -98,6 +98,55 @@ fn main() {
             }
         },
     );
+    // shared ownership: an ArcArray whose buffer is shared (the call must un-share first) and a CowArray that borrows
+    let spats: Vec<Vec<u8>> = (1..=rep.cfg.pick(6, 7)).flat_map(|n| weak_orders(n)).collect();
+    rep.run_sub(
+        "shared-ownership",
+        "all weak-order patterns of length 1..=6 (7) x every pivot position, called on an ArcArray that shares its buffer with a second handle and on a CowArray borrowing an array: same post-conditions, and the other handle / the borrowed array is unchanged",
+        spats.into_iter().flat_map(|pat| { let n = pat.len(); (0..n).map(move |p| (pat.clone(), p)).collect::<Vec<_>>() }),
+        |c, lx| {
+            use ndarray::{ArcArray1, CowArray};
+            let (pat, p) = c;
+            let n = pat.len();
+            lx.nontrivial(n >= 2);
+            let vals: Vec<i32> = pat.iter().map(|&r| r as i32 * 3 - 4).collect();
+            let pv = vals[*p];
+            let rank = vals.iter().filter(|x| **x < pv).count();
+            for kind in 0..2u8 {
+                lx.single(|lx| {
+                    let keep = ArcArray1::from(vals.clone());
+                    let base = ndarray::Array1::from(vals.clone());
+                    let (r, after): (Result<usize, String>, Vec<i32>) = if kind == 0 {
+                        let mut a = keep.clone();
+                        let r = guarded(|| a.partition_mut(*p));
+                        (r, a.to_vec())
+                    } else {
+                        let mut cow = CowArray::from(base.view());
+                        let r = guarded(|| cow.partition_mut(*p));
+                        (r, cow.to_vec())
+                    };
+                    let what = if kind == 0 { "shared ArcArray" } else { "borrowing CowArray" };
+                    match &r {
+                        Err(m) => lx.fail("C15/in-range-panic", || format!("partition_mut({}) on a {} {:?} panicked: {}", p, what, vals, m)),
+                        Ok(k) => {
+                            let k = *k;
+                            lx.check(k == rank, "C15/wrong-rank", || format!("partition_mut({}) on a {} {:?} returned {} but {} elements are smaller than the pivot value {}", p, what, vals, k, rank, pv));
+                            if k < n {
+                                lx.check(after[k] == pv && after[..k].iter().all(|x| *x < pv) && after[k + 1..].iter().all(|x| *x >= pv), "C15/left-not-smaller", || format!("partition_mut({}) on a {} {:?} -> k={} array {:?}", p, what, vals, k, after));
+                            }
+                        }
+                    }
+                    let mut a = vals.clone();
+                    let mut b = after.clone();
+                    a.sort();
+                    b.sort();
+                    lx.check(a == b, "C15/multiset-changed", || format!("{}: {:?} -> {:?}", what, vals, after));
+                    lx.check(keep.to_vec() == vals && base.to_vec() == vals, "C15/other-handle-modified", || format!("partition_mut on a {} changed the other handle / the borrowed array", what));
+                    hash_of(&(r.ok(), after))
+                });
+            }
+        },
+    );
     // long arrays: block / offset-buffer thresholds in partition implementations
     let smax = rep.cfg.pick(2100, 4200);
     let lcases = nsmc::patterns::sizes(16, smax).into_iter().filter(|&n| n >= 9).flat_map(|n| {
